@@ -218,9 +218,275 @@ pub fn run(ctx: &Ctx) -> Outcome {
         run_bulk(ctx, &mut out);
     }
     if part == "held" || part == "all" {
-        run_held(ctx, &mut out);
+        if ctx.shard == 0 && ctx.args.u64("first-round", 0) == 0 {
+            run_windows(ctx, &mut out);
+        }
+        if out.violations.is_empty() {
+            run_held(ctx, &mut out);
+        }
     }
     out
+}
+
+/// A writer is frozen at a window site inside a structural change (untreeify, treeify, the
+/// split of a list or tree bin during a transfer, an unlink); a reader pins its guard *during
+/// the freeze*, takes references through get_key_value on every key and through an iterator,
+/// the writer is released, finishes, retires some more and flushes; only then does the reader
+/// re-read everything it holds and unpin. Whatever the reader could reach while it was pinned
+/// must still be intact: nothing may be retired before it is unreachable.
+fn window_case(case: u32, batch: usize, nth: u64, step: Option<u64>, main_steps: &std::sync::Arc<std::sync::atomic::AtomicU64>) -> Result<Option<(String, u64)>, String> {
+    use crate::orch::Actor;
+    use flurry::verif as fvf;
+    use std::sync::Arc;
+    ledger().reset();
+    let _ = corrupt_take();
+    let (name, mode, cap, nkeys, site): (&str, u8, usize, u64, u32) = match case {
+        0 => ("removals shrinking a tree bin until it is untreeified (remove)", CONSTANT, 64, 9, fvf::WIN_BEFORE_UNTREEIFY_STORE),
+        1 => ("removals shrinking a tree bin until it is untreeified (compute_if_present -> None)", CONSTANT, 64, 9, fvf::WIN_BEFORE_UNTREEIFY_STORE),
+        2 => ("removals in descending order shrinking a tree bin of grouped hashes", MODGROUPS, 64, 11, fvf::WIN_BEFORE_UNTREEIFY_STORE),
+        3 => ("resize splitting list bins (before the forwarding marker is stored)", IDENTITY, 0, 12, fvf::WIN_TRANSFER_BEFORE_FORWARD),
+        4 => ("resize splitting a tree bin (before the forwarding marker is stored)", SPLITTING, 64, 24, fvf::WIN_TRANSFER_BEFORE_FORWARD),
+        5 => ("ninth colliding insert: list bin about to be treeified", CONSTANT, 64, 8, fvf::WIN_BEFORE_TREEIFY),
+        6 => ("ninth colliding insert: tree bin just stored", CONSTANT, 64, 8, fvf::WIN_TREE_FIRST_STORED),
+        7 => ("removals from list bins (node unlinked)", IDENTITY, 16, 30, fvf::WIN_UNLINKED),
+        8 => ("resize moving a tree bin unsplit to the high half", ALLHIGH, 64, 12, fvf::WIN_TRANSFER_BEFORE_FORWARD),
+        9 => ("removals from a tree bin that stays a tree (node unlinked)", CONSTANT, 64, 20, fvf::WIN_UNLINKED),
+        10 => ("values replaced by insert in list bins", IDENTITY, 16, 10, fvf::WIN_HEAD_VALIDATED),
+        11 => ("values replaced by insert and compute_if_present in a tree bin", CONSTANT, 64, 12, fvf::WIN_HEAD_VALIDATED),
+        12 => ("clear over list bins and a tree bin", SPLITTING, 128, 30, fvf::WIN_HEAD_VALIDATED),
+        _ => ("retain_force removing every other entry of list bins and a tree bin", SPLITTING, 128, 30, fvf::WIN_HEAD_VALIDATED),
+    };
+    let map: Arc<Map> = Arc::new(if cap == 0 { Map::with_hasher(HB::new(mode)) } else { Map::with_capacity_and_hasher(cap, HB::new(mode)) }.with_collector(seize::Collector::new().batch_size(batch)));
+    let key_of = move |i: u64| if case == 3 || case == 7 || case == 10 { (i % 4) + 16 * (i / 4) } else { i };
+    {
+        let g = map.guard();
+        for i in 0..nkeys {
+            map.insert(TKey::new(key_of(i), 0), TVal::new(1000 + i), &g);
+        }
+    }
+    let m = map.clone();
+    let ms = main_steps.clone();
+    let arm = |g: &crate::hook::Gate| match step {
+        Some(j) => g.arm_step(j),
+        None => g.arm_site(site, nth),
+    };
+    let writer = Actor::spawn("writer", 1, arm, move || {
+        let g = m.guard();
+        match case {
+            0 | 7 | 9 => {
+                for i in 0..nkeys {
+                    m.remove(&KQ(key_of(i)), &g);
+                }
+            }
+            1 => {
+                for i in 0..nkeys {
+                    m.compute_if_present(&KQ(i), |_, _| None, &g);
+                }
+            }
+            2 => {
+                for i in (0..nkeys).rev() {
+                    m.remove(&KQ(i), &g);
+                }
+            }
+            3 => {
+                for i in 100..140 {
+                    m.insert(TKey::new(i, 1), TVal::new(i), &g);
+                }
+            }
+            4 | 8 => m.reserve(200, &g),
+            10 | 11 => {
+                for i in 0..nkeys {
+                    if case == 11 && i % 2 == 0 {
+                        m.compute_if_present(&KQ(key_of(i)), |_, _| Some(TVal::new(2000 + i)), &g);
+                    } else {
+                        m.insert(TKey::new(key_of(i), 1), TVal::new(2000 + i), &g);
+                    }
+                }
+            }
+            12 => m.clear(&g),
+            13 => {
+                m.retain_force(|k, _| k.k % 2 == 0, &g);
+            }
+            _ => {
+                m.insert(TKey::new(8, 1), TVal::new(8), &g);
+            }
+        }
+        ms.store(crate::hook::my_gate_steps(), std::sync::atomic::Ordering::SeqCst);
+        // more retirements and a flush, so that whatever was retired early is really reclaimed
+        for i in 0..6u64 {
+            m.insert(TKey::new(7000 + i, 1), TVal::new(i), &g);
+            m.remove(&KQ(7000 + i), &g);
+        }
+        g.flush();
+        drop(g);
+        let g2 = m.guard();
+        for i in 0..6u64 {
+            m.insert(TKey::new(7100 + i, 1), TVal::new(i), &g2);
+            m.remove(&KQ(7100 + i), &g2);
+        }
+        g2.flush();
+    });
+    match writer.wait_frozen_or_done(20_000) {
+        Ok(true) => {}
+        Ok(false) => {
+            writer.join().map_err(|e| format!("{name}: the writer panicked: {e}"))?;
+            return Ok(None);
+        }
+        Err(e) => return Err(format!("INCONCLUSIVE {e}")),
+    }
+    let writer_site = writer.gate.frozen_site.load(std::sync::atomic::Ordering::SeqCst);
+    // the reader pins now, inside the window
+    let g = map.guard();
+    let mut keys: Vec<(&TKey, u64, u64)> = Vec::new();
+    let mut vals: Vec<(&TVal, u64, u64)> = Vec::new();
+    for i in 0..nkeys.max(9) {
+        if let Some((k, v)) = map.get_key_value(&KQ(key_of(i)), &g) {
+            keys.push((k, k.id, k.k));
+            vals.push((v, v.id, v.v));
+        }
+    }
+    for (k, v) in map.iter(&g) {
+        keys.push((k, k.id, k.k));
+        vals.push((v, v.id, v.v));
+    }
+    let led = ledger();
+    for (_, id, _) in &keys {
+        led.lease(*id);
+    }
+    for (_, id, _) in &vals {
+        led.lease(*id);
+    }
+    writer.gate.release();
+    let mut problem = None;
+    if let Err(e) = writer.wait_done(30_000) {
+        return Err(format!("INCONCLUSIVE {e}"));
+    }
+    if let Err(e) = writer.join() {
+        problem = Some(format!("the writer panicked: {e}"));
+    }
+    let held = (keys.len() + vals.len()) as u64;
+    for (r, id, k) in &keys {
+        if problem.is_none() && (!r.verify() || r.id != *id || r.k != *k || led.is_live(*id) == Some(false)) {
+            problem = Some(format!(
+                "a key reference (id {id}, key {k}) obtained under a guard that was pinned while the writer stood at the window and is still alive now reads id {} key {}; ledger: {}",
+                r.id,
+                r.k,
+                if led.is_live(*id) == Some(false) { "this instance has been dropped" } else { "live" }
+            ));
+        }
+    }
+    for (r, id, v) in &vals {
+        if problem.is_none() && (!r.verify() || r.id != *id || r.v != *v || led.is_live(*id) == Some(false)) {
+            problem = Some(format!(
+                "a value reference (id {id}, payload {v:#x}) obtained under a guard that was pinned while the writer stood at the window and is still alive now reads id {} payload {:#x}; ledger: {}",
+                r.id,
+                r.v,
+                if led.is_live(*id) == Some(false) { "this instance has been dropped" } else { "live" }
+            ));
+        }
+    }
+    for (_, id, _) in &keys {
+        led.release(*id);
+    }
+    for (_, id, _) in &vals {
+        led.release(*id);
+    }
+    drop(keys);
+    drop(vals);
+    drop(g);
+    let _ = corrupt_take();
+    if let Some(p) = problem {
+        std::mem::forget(map);
+        let at = match step {
+            Some(j) => format!("its instrumented step {j} (site {})", writer_site),
+            None => format!("hit {nth} of site {site}"),
+        };
+        return Err(format!("{name} [collector batch {batch}, writer frozen at {at}]: {p}"));
+    }
+    Ok(Some((name.to_string(), held)))
+}
+
+pub fn run_windows(ctx: &Ctx, out: &mut Outcome) {
+    install_panic_capture();
+    let main_steps = std::sync::Arc::new(std::sync::atomic::AtomicU64::new(0));
+    let mut judge = |out: &mut Outcome, r: Result<Result<Option<(String, u64)>, String>, String>, case: u32, nth: u64, step: Option<u64>, batch: usize| -> Option<bool> {
+        out.evaluations += 1;
+        let r = match r {
+            Ok(r) => r,
+            Err(p) => Err(format!("panicked: {p}")),
+        };
+        match r {
+            Ok(Some((name, held))) => {
+                out.add(if step.is_some() { "window_cases_by_step" } else { "window_cases_by_site" }, 1);
+                out.add("window_references_held_across_the_window", held);
+                out.distinct.insert(fnv(fnv(fnv(fnv(FNV_OFFSET ^ 0x77, case as u64), nth), batch as u64), step.unwrap_or(0)));
+                if nth == 1 && batch == 1 && step.is_none() {
+                    out.list("window_scenarios", &name);
+                }
+                Some(true)
+            }
+            Ok(None) => Some(false),
+            Err(e) if e.starts_with("INCONCLUSIVE") => {
+                out.inconclusive.push(e);
+                None
+            }
+            Err(e) => {
+                out.violate(
+                    "c03/window",
+                    e,
+                    Json::obj().with("check", Json::s("c03")).with("part", Json::s("held")).with("seed", Json::u(ctx.seed)).with("window_case", Json::u(case)).with("nth", Json::u(nth)).with("step", Json::u(step.unwrap_or(0))).with("batch", Json::u(batch)),
+                );
+                None
+            }
+        }
+    };
+    let only = ctx.args.u64("window-case", u64::MAX);
+    for case in 0..14u32 {
+        if only != u64::MAX && only != case as u64 {
+            continue;
+        }
+        // (a) frozen at the n-th hit of the scenario's window site
+        let mut reached = 0u64;
+        'nth: for nth in 1..=ctx.q(24u64, 64) {
+            for batch in [1usize, 2, 3] {
+                if !ctx.time_left() {
+                    break 'nth;
+                }
+                let r = guarded(|| window_case(case, batch, nth, None, &main_steps));
+                match judge(out, r, case, nth, None, batch) {
+                    Some(true) => reached += 1,
+                    // the writer finished without reaching the nth hit: no further hits for this case
+                    Some(false) => break 'nth,
+                    None => return,
+                }
+            }
+        }
+        if reached == 0 {
+            out.inconclusive.push(format!("window case {case}: the writer never reached its window site"));
+        }
+        // (b) frozen at every instrumented step of the structural operation itself
+        main_steps.store(0, std::sync::atomic::Ordering::SeqCst);
+        let r = guarded(|| window_case(case, 1, u64::MAX, None, &main_steps));
+        if judge(out, r, case, 0, None, 1).is_none() {
+            return;
+        }
+        let n = main_steps.load(std::sync::atomic::Ordering::SeqCst);
+        out.max("window_steps_of_longest_operation", n as f64);
+        let stride = if ctx.thorough { 1 } else { (n / 250).max(1) };
+        let mut j = 1 + ctx.seed % stride;
+        while j <= n {
+            if !ctx.time_left() {
+                break;
+            }
+            for batch in [1usize, 2] {
+                let r = guarded(|| window_case(case, batch, 0, Some(j), &main_steps));
+                if judge(out, r, case, 0, Some(j), batch).is_none() {
+                    return;
+                }
+            }
+            j += stride;
+        }
+    }
 }
 
 /// Readers keep every reference they obtain for the life of their guard (lookups, iterators,
@@ -248,8 +514,25 @@ pub fn run_held(ctx: &Ctx, out: &mut Outcome) {
         cfg.mix.reserve = 2;
         cfg.mix.insert += 10;
         cfg.mix.remove += 6;
-        if rng.chance(1, 2) {
+        let shape = rng.below(5);
+        if shape < 2 {
             cfg.nkeys = cfg.nkeys.min(24);
+        } else if shape == 2 {
+            // one bin oscillating around the treeify / untreeify thresholds under held references
+            cfg.mode = *rng.pick(&crate::hashers::CROWDED_MODES);
+            cfg.cap = 64;
+            cfg.nkeys = rng.range(9, 14);
+            cfg.prefill = cfg.nkeys;
+            cfg.batch = *rng.pick(&[1usize, 1, 2]);
+            cfg.mix.clear = 0;
+            cfg.mix.retain = 0;
+            cfg.mix.retain_force = 0;
+            cfg.mix.reserve = 0;
+            cfg.mix.remove += 14;
+            cfg.mix.compute_none += 6;
+            cfg.holder_threads = rng.range(2, 3) as usize;
+            cfg.focus_site = *rng.pick(&[fvf::WIN_BEFORE_UNTREEIFY_STORE, fvf::WIN_BEFORE_UNTREEIFY_STORE, fvf::WIN_BEFORE_TREEIFY, fvf::WIN_TREE_FIRST_STORED, 0]);
+            cfg.delay_level = cfg.delay_level.max(1);
         } else {
             // growth through several generations under held references
             cfg.nkeys = *rng.pick(&[64u64, 128, 256]);
